@@ -112,6 +112,29 @@ def discharge(facts, b, blk, kind, ops, t, prefix):
                 return "constant shift amount"
     if kind == "assert:BoundsCheck" and len(t["msg_ops"]) == 2:
         ln, ix = (fmtfeat.const_eval(expr(b, o)) for o in t["msg_ops"])
+        if ln is None:
+            # the length of a slice that borrows a buffer of constant size (`&buf` / `&buf[..]` of `vec![0; N]` or `[0; N]`)
+            l0 = op_local(b.resolve_copy(t["msg_ops"][0]))
+            sd = b.single_def(l0) if l0 is not None else None
+            if sd and sd[1] == "assign" and sd[2]["rv"]["k"] == "un" and str(sd[2]["rv"].get("op")) == "PtrMetadata":
+                base = strip_refs(expr(b, sd[2]["rv"]["a"]))
+                hops = 0
+                while isinstance(base, tuple) and base and base[0] in ("deref", "index") and hops < 4:
+                    hops += 1
+                    base = strip_refs(base[1]) if len(base) > 1 else base
+                if isinstance(base, tuple) and base and base[0] == "call" and str(base[1]).endswith("from_elem"):
+                    ln = fmtfeat.const_eval(base[2][1])
+                else:
+                    bl = op_local(b.resolve_copy(sd[2]["rv"]["a"]))
+                    seen_l = set()
+                    while bl is not None and bl not in seen_l:
+                        seen_l.add(bl)
+                        m_ = re.match(r"^&*(?:mut )?\[u8; (\d+)\]$", b.local_ty(bl).replace("&mut ", "&"))
+                        if m_:
+                            ln = int(m_.group(1))
+                            break
+                        nb = borrowed_local(b, {"k": "copy", "place": {"l": bl, "p": []}})
+                        bl = nb if nb != bl else None
         if ln is not None and ix is not None and ix < ln:
             return "constant index %d into a fixed array of %d" % (ix, ln)
     if kind in ("call:index", "call:index_mut") and len(t["args"]) == 2:
@@ -195,6 +218,10 @@ def discharge(facts, b, blk, kind, ops, t, prefix):
             return "capacity bounded by dominating guards (<= %d)" % up
     if kind.startswith("assert:Overflow(Add)") and len(t["msg_ops"]) == 2:
         a, c = (strip_refs(expr(b, o)) for o in t["msg_ops"])
+        for x, y in ((a, c), (c, a)):
+            k = fmtfeat.const_eval(x)
+            if k is not None and k < (1 << 62) and isinstance(y, tuple) and y and y[0] == "len":
+                return "constant + length of an allocated buffer (a length is at most isize::MAX)"
         for x, y in ((a, c), (c, a)):
             k = fmtfeat.const_eval(x)
             if k is not None:
